@@ -16,7 +16,7 @@ FUNCTIONS = [
 BOUNDS = ("One call from an arbitrary pre-state; on every path where the call raises, nothing was "
           "written and the snapshot of all public state (builder/state position, distance mode, "
           "feed, power, tool/coolant/halt status and modes, tool number, remembered parameters, "
-          "target temperatures, units, plane, resolution) is unchanged. Cell grid: 96 call shapes "
+          "target temperatures, units, plane, resolution) is unchanged. Cell grid: 99 call shapes "
           "x bounds table {none, all seven properties set} x machine state {idle, tool+coolant "
           "running} x {G90, G91, G91 with a pause pending} (quick: the last two for the idle machine only) x how the pre-state is reached {installed directly, through public calls from a fresh builder (a true history)}. Solver over: arguments (reals, NaN, +-inf), integer arguments, pre-state "
           "feed/power/x-coordinate, and the feed-rate, tool-power and temperature ranges "
